@@ -35,7 +35,7 @@ def _case(draw):
             i = draw(st.integers(0, n - 1))
             j = draw(st.integers(i, n - 1))          # j >= i: self loop or back edge
             back.append((i, j, draw(st.sampled_from(['h', 's', 'b']))))
-    outs = draw(sc.outcomes(n, 0.35))
+    outs = draw(sc.outcomes(n, 0.35, unmergeable=True))
     workers = draw(st.sampled_from([1, 2, 2, 3, 4]))
     init = {}
     if draw(st.integers(0, 2)) == 0:
@@ -92,12 +92,16 @@ def _cause(case, rec):
     """Coarse cause features for the bucket signature."""
     if sc.is_cyclic(case):
         return 'cyclic'
+    if rec.deaths and any(o in sc.OUTCOMES_UNMERGEABLE for o in case['outcomes']):
+        return 'worker-died/unmergeable-update'
     if rec.deaths:
         return 'worker-died'
     if rec.how == 'raised':
         return 'master-raised:' + type(rec.value).__name__
     if case.get('init'):
         return 'init-nonempty'
+    if any(o in sc.OUTCOMES_UNMERGEABLE for o in case['outcomes']):
+        return 'unmergeable-update'
     if any(o in sc.OUTCOMES_MALFORMED for o in case['outcomes']):
         return 'malformed'
     return 'plain'
@@ -141,6 +145,8 @@ def run_case(case):
         out.labels.append('init-nonempty')
     if any(o in sc.OUTCOMES_MALFORMED for o in case['outcomes']):
         out.labels.append('malformed')
+    if any(o in sc.OUTCOMES_UNMERGEABLE for o in case['outcomes']):
+        out.labels.append('unmergeable-update')
     static_nt = cyc or bool(case.get('init')) or any(o != 'done' and o != 'failed'
                                                       for o in case['outcomes'])
     spec = case['sched']
